@@ -1,5 +1,6 @@
 """C10 — slice views and in-place slice ops (DESIGN.md §6 C10)."""
 from vlib.kani import run_kani
+from vlib.vunit import run_unit
 
 FLAGS = ['--cbmc-args', '--memory-leak-check']
 SEARCH = ('slice', lambda h: 'boxed' if 'boxed' in h else None)
@@ -12,7 +13,13 @@ def run(ctx):
     ctx.bounded.append('BOUNDED in the slice length: the view harnesses take a symbolic sub-slice of a backing array of 3N+2 samples '
                        '(L <= 3N+2; the conversion bodies are loop-free, L enters only through len % N, len / N, len * N); boxed: '
                        'L <= 2N+1; in-place operations: lengths 0..=4 on 2-channel frames; length mismatch: 5 length pairs')
-    ctx.add_assumption('NOT built: a Verus proof of the in-place loops for unbounded lengths (`for f in a` over &mut [F])')
+    # unbounded length: the two-slice in-place operations (zip_map_in_place(_unchecked), write, add_in_place) are verified by Verus
+    # to equal the element-wise frame operation for EVERY length; a length mismatch never returns normally
+    ctx.add_trusted('Verus 0.2026.09.13 + Z3 for unit slice_inplace (Frame-operation contracts assumed as in C04: C03 discharges them)')
+    ctx.add_assumption('NOT in the Verus unit: map_in_place / equilibrium (`for f in a` over &mut [F] is outside the Verus subset) and '
+                       'add_in_place_with_amp_per_channel (needs a bound the shared prelude cannot state): those three stay with the '
+                       'bounded Kani harnesses (lengths 0..=4)')
+    run_unit(ctx, 'slice_inplace', search_crate='slice')
     if ctx.tier == 'quick':
         ctx.bounded.append('quick tier: N in {1,2,3,8,32} for i16 and N in {2,31} for u8, f32, I24; thorough enumerates N = 1..=32 x 4 formats')
         run_kani(ctx, 'slice', harness=['c10_q_'], flags=FLAGS, harness_timeout='8m', search=SEARCH)
